@@ -18,7 +18,7 @@ def string_to_uuid(sequence: Sequence, state: dict) -> Sequence:
 @UUID.register_relationship(String, Sequence)
 def string_is_uuid(sequence: Sequence, state: dict) -> bool:
     try:
-        string_to_uuid(sequence)
+        string_to_uuid(sequence, state)
         return True
     except (ValueError, TypeError, AttributeError):
         return False
